@@ -273,10 +273,20 @@ m("C06", "proof",
   "tracker's ranges, each once (C06_nak_sequence_exact); each PDU has scope (0, EOF size), 1..m requests and an "
   "encoded length <= max_packet_len (C06_nak_sequence_pdus, C06_nak_len); nothing missing => no NAK, completion "
   "(C06_nothing_missing); the immediate NAK requests exactly the gap (C06_immediate_nak, "
-  "C06_no_nak_without_gap). With C18 the tracker denotes exactly the bytes added and not removed. The link "
-  "'tracker = bytes not stored' is explored with the interval oracle, not proved.",
-  "Lean 4 theorems (induction over the request-splitting loop) + interval-model oracle", "§6 C06",
-  ["Inv_trk (tracker = not stored) explored, not proved"])
+  "C06_no_nak_without_gap). EVERY ARRIVAL HISTORY over the tiles of a segment grid (any order, losses, "
+  "duplicates; then the EOF; then retransmissions in any order): the tracker is well-formed and lists exactly "
+  "the bytes below the in-order marker / of [0,size) that no PDU delivered (C06_tracker_exact_all_histories, "
+  "C06_tracker_exact_after_eof; invariant TInv of Lemmas/TrackerGrid.lean, which also shows that on a grid no "
+  "removal is ever refused), tied to the handler method by method (C06_lost_segment_handling_is_tile for every "
+  "state, C06_feed_is_tiles, C06_no_error_eof_tail, C06_deferred_first_issue); hence the deferred NAK "
+  "sequence requests exactly the missing bytes, ascending, non-empty, and is empty iff nothing is missing "
+  "(C06_nak_requests_exactly_missing) and the immediate NAK requests only bytes nobody delivered, inside the "
+  "known extent (C06_immediate_nak_only_missing).",
+  "Lean 4 theorems (induction over the request-splitting loop; invariant by induction over arrival histories) "
+  "+ interval-model oracle", "§6 C06",
+  ["late Metadata seeds the tracker differently (composed for one lost Metadata PDU in C03): covered by the "
+   "interval oracle, not by the every-history theorem",
+   "file data refused by the filestore: the tracker is updated before the write"])
 m("C10", "proof",
   "malformed stream: every PDU type with arbitrary field values, ids, widths, directions against both "
   "handlers in every step reached by interrupted (possibly faulty) transfers; put/cancel requests and time "
